@@ -40,3 +40,25 @@ VARIANTS = [
     dict(name="height-temporaries", kind="benign", edits=[(OM,
         "    return max(0, max_z - min_z)", "    overlap = max_z - min_z\n    return max(0, overlap)")]),
 ]
+
+# seeded (round 2): the transformed corners overwrite the ground truth's own-frame corners
+VARIANTS += [
+    dict(name="seed2-gt-corners-overwritten-by-ego-frame-copy", kind="break", rule="R-FRAME", edits=[("evaluation/matching/object_matching.py",
+        """                gt_corners_base_link = np.array(
+                    [
+                        transforms.transform((ground_truth_object.frame_id, FrameID.BASE_LINK), corner)
+                        for corner in gt_corners
+                    ]
+                )
+                gt_distances = np.linalg.norm(gt_corners_base_link[:, :2], axis=1)
+            else:
+                gt_distances = gt_distances = np.linalg.norm(gt_corners[:, :2], axis=1)
+""", """                gt_corners = np.array(
+                    [
+                        transforms.transform((ground_truth_object.frame_id, FrameID.BASE_LINK), corner)
+                        for corner in gt_corners
+                    ]
+                )
+            gt_distances = np.linalg.norm(gt_corners[:, :2], axis=1)
+""")]),
+]
